@@ -241,14 +241,23 @@ pub fn one_case<R: Src>(r: &mut R, id: &str) -> Option<(IllCase, (String, String
             None => false,
             Some(x) => {
                let s = items[rule_item].trim_end_matches(';').to_string();
+               // the self reference sits directly in the body, behind a base case inside a disjunction, or after
+               // another item of a disjunct (the depth guard must also hold across parenthesised disjunctions)
+               let form = r.below(3);
+               let wrap = |call: &str| match form {
+                  0 => call.to_string(),
+                  1 => format!("((if true) | {call})"),
+                  _ => format!("((if true) | (if true), {call})"),
+               };
                if op == "recursive_macro_self" {
-                  new_items.insert(n_decl, "macro selfm($x: ident) { selfm!($x) }".into());
+                  new_items.insert(n_decl, format!("macro selfm($x: ident) {{ {} }}", wrap("selfm!($x)")));
                   new_items[rule_item + 1] = format!("{s}, selfm!({x});");
                } else {
-                  new_items.insert(n_decl, "macro mutb($x: ident) { muta!($x) }".into());
+                  new_items.insert(n_decl, format!("macro mutb($x: ident) {{ {} }}", wrap("muta!($x)")));
                   new_items.insert(n_decl, "macro muta($x: ident) { mutb!($x) }".into());
                   new_items[rule_item + 2] = format!("{s}, muta!({x});");
                }
+               site = format!("{site}:{}", ["direct", "in_disjunction", "after_item_in_disjunct"][form]);
                true
             },
          },
